@@ -50,7 +50,7 @@ theorem canonical_mapping_perm (ign : Bool) (p : TPath) {m m' : KVs} (hn : (keys
     ∀ r r', CV.Short.transformKVs ign p m = .ok r → CV.Short.transformKVs ign p m' = .ok r' →
       r'.Perm r ∧ ∀ k, lookup k r' = lookup k r := by
   rw [transformKVs_trav, transformKVs_trav]
-  have h := travOpt_perm (fun k e => optS (CV.Short.transform ign (TPath.next p k) e)) hn hp
+  have h := travOpt_perm (fun k e => optS (CV.Short.transform ign (TPath.nextK p k) e)) hn hp
   refine ⟨h.1, fun r r' hr hr' => h.2 r r' ?_ ?_⟩
   · rw [← transformKVs_trav]; exact optS_some.mpr hr
   · rw [← transformKVs_trav]; exact optS_some.mpr hr'
